@@ -1,20 +1,17 @@
 #!/bin/sh
 # Offline setup: nothing to build (TLA+ specs are interpreted by TLC, the harness is Python run by /venv).
-# Verifies the tools the checks need and parses every specification once.
+# Verifies the tools the checks need and parses every specification once (eight at a time; a module that does not
+# parse is reported, not fatal: the check that uses it fails with a machinery error of its own).
 set -e
 cd "$(dirname "$0")"
 command -v java >/dev/null
 test -f /opt/veriftools/tla/tla2tools.jar
-/venv/bin/python -c "import porepy, numpy, scipy" 
+/venv/bin/python -c "import porepy, numpy, scipy"
 mkdir -p evidence replays
 LIB="$(pwd)/spec/lib:$(pwd)/spec/sys:$(pwd)/spec/ref:$(pwd)/spec/trace"
-fail=0
-for f in spec/lib/*.tla spec/sys/*.tla spec/ref/*.tla spec/trace/*.tla; do
-  [ -f "$f" ] || continue
-  if ! java -DTLA-Library="$LIB" -cp /opt/veriftools/tla/tla2tools.jar:/opt/veriftools/tla/CommunityModules-deps.jar tla2sany.SANY "$f" >/tmp/sany.$$ 2>&1; then
-    echo "SANY warning (module under construction?): $f"; tail -3 /tmp/sany.$$
-  fi
-done
-rm -f /tmp/sany.$$
-[ $fail = 0 ] && echo "setup ok"
-exit $fail
+export LIB
+ls spec/lib/*.tla spec/sys/*.tla spec/ref/*.tla spec/trace/*.tla 2>/dev/null | xargs -P 8 -I{} sh -c '
+  out=$(java -DTLA-Library="$LIB" -cp /opt/veriftools/tla/tla2tools.jar:/opt/veriftools/tla/CommunityModules-deps.jar tla2sany.SANY "{}" 2>&1) \
+    || { echo "SANY warning (module under construction?): {}"; echo "$out" | tail -3; }' || true
+echo "setup ok"
+exit 0
